@@ -87,20 +87,14 @@ Definition like_escape_char (c : ch) : str :=
 Definition like_escape (s : str) : str := flat_map like_escape_char s.
 Definition wanted_pattern (k : kind) (s : str) : str := k_prefix k ++ like_escape s ++ k_postfix k.
 
-(* ---------------------------------------------------------------- guards of the known trigger classes *)
-(* mysql / postgres: the argument holds one of the characters that
-   sqlStringReplace turns into a backslash sequence (NUL, backspace, LF, CR, TAB):
-   the helper escapes that sequence's backslash again *)
-Definition is_ctrl (c : ch) : bool := (c =? 0) || (c =? 8) || (c =? 10) || (c =? 13) || (c =? 9).
-Definition ctrl_free (s : str) : bool := negb (existsb is_ctrl s).
-
-(* sybase / mssql: the pattern would hold backslash + line break (T-SQL line continuation) *)
-Definition like_ok (d : dialect) (k : kind) (s : str) : bool :=
-  match d with
-  | Mysql | Postgres => ctrl_free s
-  | Sybase | Mssql => negb (has_continuation (wanted_pattern k s))
-  | _ => true
-  end.
+(* ---------------------------------------------------------------- guard *)
+(* Since the repair fbe34cd the pattern operand is the ordinary rendering of the wanted
+   pattern, so the only arguments excluded are those whose PATTERN the literal round trip
+   of C02 excludes:
+     postgres      -- the pattern holds a NUL (C02 pg_nul_octal: rejected, or altered when an octal digit follows);
+     sybase, mssql -- the pattern holds backslash + line break (Transact-SQL line continuation);
+     sqlite, mysql, firebird, maxdb -- nothing. *)
+Definition like_ok (d : dialect) (k : kind) (s : str) : bool := str_ok d (wanted_pattern k s).
 
 (* ---------------------------------------------------------------- Transact-SQL LIKE *)
 (* T-SQL (mssql, sybase) additionally reads `[...]` in a pattern as a character
